@@ -60,18 +60,23 @@ def src_of(text):
 
 
 # ------------------------------------------------------------------ Colang 1 config
-def v1_rail(kind, idx, shape, exc):
+def v1_rail(kind, idx, shape, exc, aux=False):
     name = "rail %s %d" % (kind, idx)
     act = "rail_%s" % kind
     var = "$user_message" if kind == "in" else "$bot_message"
     exn = "InputRailException" if kind == "in" else "OutputRailException"
     block = ('    create event %s(message="blocked by %s")\n    stop\n' % (exn, name)) if exc else \
         "    bot refuse to respond\n    stop\n"
+    if aux:
+        # the blocking branch first reports the violation through another action (which may fail as well)
+        block = "    execute log_violation(idx=%d)\n" % idx + block
     if shape == "tri":
         return ("define subflow %s\n  $v = execute %s(idx=%d)\n  if $v == \"REJECT\"\n%s  if $v != \"ACCEPT\"\n    %s = $v\n"
                 % (name, act, idx, block, var))
-    if shape == "check":
+    if shape in ("check", "none"):      # "none": the action answers None instead of False; every rail uses the same variable
         return "define subflow %s\n  $allowed = execute %s(idx=%d)\n  if not $allowed\n%s" % (name, act, idx, block)
+    if shape == "own":                  # like check, but every rail category has its own result variable
+        return "define subflow %s\n  $%s_ok = execute %s(idx=%d)\n  if not $%s_ok\n%s" % (name, kind, act, idx, kind, block)
     if shape == "inv":
         return "define subflow %s\n  $bad = execute %s(idx=%d)\n  if $bad\n%s" % (name, act, idx, block)
     raise ValueError(shape)
@@ -87,9 +92,9 @@ def v1_config(cfg):
                'define bot express greeting\n  "%s"\n\n' % PREDEF)
     co += 'define bot refuse to respond\n  "%s"\n\n' % REFUSAL
     for i in range(cfg["nin"]):
-        co += v1_rail("in", i, cfg.get("shape", "tri"), cfg["exc"]) + "\n"
+        co += v1_rail("in", i, cfg.get("shape", "tri"), cfg["exc"], cfg.get("aux")) + "\n"
     for j in range(cfg["nout"]):
-        co += v1_rail("out", j, cfg.get("shape", "tri"), cfg["exc"]) + "\n"
+        co += v1_rail("out", j, cfg.get("shape", "tri"), cfg["exc"], cfg.get("aux")) + "\n"
     if cfg.get("nret"):
         co += "define subflow rail ret 0\n  execute rail_ret(idx=0)\n\n"
     yml = doubles.MODELS_YAML
@@ -127,8 +132,19 @@ class Scenario:
         self.config = RailsConfig.from_content(colang_content=co, yaml_content=yml)
         self.llm = doubles.ScriptedLLM(responder=self._respond, calls=[])
         self.app = LLMRails(self.config, llm=self.llm)
-        self.app.register_action(self._rail_in, "rail_in")
-        self.app.register_action(self._rail_out, "rail_out")
+        if cfg.get("syncwrap"):
+            # a plain function that RETURNS the coroutine of the real action (what a decorator written without `async` gives)
+            def rail_in(context=None, idx=0):
+                return self._rail_in(context=context, idx=idx)
+
+            def rail_out(context=None, idx=0):
+                return self._rail_out(context=context, idx=idx)
+            self.app.register_action(rail_in, "rail_in")
+            self.app.register_action(rail_out, "rail_out")
+        else:
+            self.app.register_action(self._rail_in, "rail_in")
+            self.app.register_action(self._rail_out, "rail_out")
+        self.app.register_action(self._log_violation, "log_violation")
         self.app.register_action(self._rail_ret, "rail_ret")
         self._wrap_dispatcher()
 
@@ -186,8 +202,10 @@ class Scenario:
                 return UM.sub("U%dv%d" % (tt, vv + 1), text)
             tt, vv = bmark(text)[-1] if bmark(text) else (t, 0)
             return BM.sub("B%dv%d" % (tt, vv + 1), text) if bmark(text) else text
-        if shape == "check":
+        if shape in ("check", "own"):
             return v == "A"
+        if shape == "none":
+            return True if v == "A" else None
         if shape == "inv":
             return v != "A"
 
@@ -196,6 +214,13 @@ class Scenario:
 
     async def _rail_out(self, context=None, idx=0):
         return self._verdict("out", idx, (context or {}).get("bot_message"))
+
+    async def _log_violation(self, context=None, idx=0):
+        turn = self.script["turns"][self.cur_turn - 1]
+        self.shared.append(ev("act", a=idx, b=3 if turn.get("auxfail") else 0, s="aux"))
+        if turn.get("auxfail"):
+            raise RuntimeError("scripted fault while reporting the violation")
+        return True
 
     async def _rail_ret(self, context=None, idx=0):
         self.shared.append(ev("act", a=idx, b=0, s="ret"))
@@ -223,6 +248,7 @@ class Scenario:
         self.app.events_history_cache.clear()
         messages = []
         out = []
+        prev_text = None
         for t, turn in enumerate(script["turns"], start=1):
             self.cur_turn = t
             del self.shared[:]
@@ -231,6 +257,9 @@ class Scenario:
                 # the request reaches an instance that has no cached events for this conversation
                 self.app.events_history_cache.clear()
             text = user_text(t, 0, turn["kind"])
+            if turn.get("repeat") and prev_text is not None:
+                text = prev_text          # exactly the text of the previous user message
+            prev_text = text
             messages = messages + [{"role": "user", "content": text}]
             opts = {"log": {"internal_events": True, "activated_rails": True}}
             if turn.get("opts") and turn["opts"].get("set"):
@@ -405,6 +434,8 @@ class Scenario2:
             sc.shared.append(("ev", ev("llm", s="gen")))
             turn = sc.script["turns"][sc.cur_turn - 1]
             text = bot_text(1 if turn.get("rep") else sc.cur_turn, 0)
+            if turn.get("empty"):
+                return ""              # the LLM answered with nothing
             if sc.cfg["shape"] == "sync":
                 text += "".join(" RJo%d" % j for j, v in enumerate(turn["outv"]) if v == "R")
             return text
